@@ -64,7 +64,6 @@ import (
 	"bytes"
 	"context"
 	"fmt"
-	"os"
 	"strconv"
 	"strings"
 	"sync"
@@ -946,13 +945,9 @@ func run(c Case) ([]vk.Violation, vk.Info) {
 		info.Class("malformed_case_skipped")
 		return nil, info
 	}
-	t0dbg := time.Now()
 	ob := execute(c)
 	vs := evaluate(c, ob)
 	info := classify(c, ob)
-	if os.Getenv("C14_TRACE") != "" {
-		fmt.Fprintf(os.Stderr, "TRACE %v %s plan=%s k=%d init=%d to=%d me=%d n=%d attempts=%d vs=%d\n", time.Since(t0dbg).Round(time.Millisecond), c.Exporter, c.Plan, c.PlanK, c.InitialMS, c.TimeoutMS, c.MaxElapsedMS, len(c.Script), len(ob.entries), len(vs))
-	}
 	// Upper-bound timing clauses must reproduce in two more runs.
 	suspect := map[string]bool{}
 	for _, v := range vs {
@@ -969,9 +964,6 @@ func run(c Case) ([]vk.Violation, vk.Info) {
 			if !again[k] {
 				delete(suspect, k)
 				info.Class("timing_suspicion_not_reproduced")
-				if os.Getenv("C14_TRACE") != "" {
-					fmt.Fprintf(os.Stderr, "TRACE-NOTREPRO %s %+v\n", k, c)
-				}
 			}
 		}
 	}
